@@ -691,6 +691,23 @@ def rule_no_carried_static_state(prog, fixture=False):
             if v.get("k") != "VarDecl" or not v.get("sl"):
                 continue
             written = [x for x in fn.walk() for d, _ in flow.written_decls(x) if d == v["d"]]
+            # an object of class type: modified by any non-const member function or by a stream insertion into it
+            for x in fn.walk():
+                if x.get("k") == "CXXMemberCallExpr":
+                    cal = strip(x["c"][0])
+                    recv = cal["c"][0] if cal and cal.get("c") else None
+                    if recv is not None and flow.lvalue_root(recv) == v["d"]:
+                        info = prog.callees.get(x.get("fn")) or {}
+                        if not info.get("const"):
+                            written.append(x)
+                elif x.get("k") == "CXXOperatorCallExpr" and x.get("op") in ("<<", ">>", "=", "+=") and len(x.get("c", [])) >= 2:
+                    first = x["c"][1]
+                    root = strip_all(first)
+                    while root is not None and root.get("k") == "CXXOperatorCallExpr" and root.get("op") in ("<<", ">>") and len(root.get("c", [])) >= 2:
+                        root = strip_all(root["c"][1])
+                    if root is not None and root.get("k") == "DeclRefExpr" and root.get("d") == v["d"] and \
+                            "const" not in (v.get("t") or "").split("<")[0]:
+                        written.append(x)
             key = "%s::%s::static %s" % (fn.relfile(), fn.qn, v.get("n"))
             if not written:
                 r.add(key, fn.loc(v), True, "never modified after initialisation", nontrivial=False)
